@@ -119,6 +119,8 @@ class Interp:
                     raise Crash(f"cannot unpack {v!r} in `{src(s)[:50]}`")
                 for e, x in zip(s.targets[0].elts, v):
                     env[e.id] = x
+            elif isinstance(s, ast.AugAssign) and isinstance(s.target, ast.Name):
+                env[s.target.id] = self.eval(ast.BinOp(left=ast.Name(s.target.id, ast.Load()), op=s.op, right=s.value), env)
             elif isinstance(s, ast.AnnAssign) and isinstance(s.target, ast.Name):
                 if s.value is not None:
                     env[s.target.id] = self.eval(s.value, env)
